@@ -1335,3 +1335,169 @@ pub fn run_typed_c03(c: &TypedCase) -> Result<CompFeats, String> {
 pub fn run_typed_all(c: &TypedCase) -> Result<CompFeats, String> {
     run_typed_only(c, &["typed_map", "typed_iip", "typed_ttl"])
 }
+
+// ------------------------------------------------------------------------------------------
+// scale: one long-lived cache with real workers, more than 100 000 admissions, then a shrunken
+// budget - conservation of values and of the counters after long use
+// ------------------------------------------------------------------------------------------
+
+#[derive(Clone, Debug, Serialize, Deserialize, Hash)]
+pub struct ScaleCase {
+    /// distinct keys admitted first (above the processor's 100 000-entry bookkeeping horizon)
+    pub n: u32,
+    pub metrics: bool,
+    pub asynchronous: bool,
+    /// seconds of TTL on every entry (0 = none; an hour and more: nothing expires during the case)
+    pub ttl_s: u32,
+    /// budget the cache is shrunk to afterwards
+    pub shrink_to: u32,
+    /// inserts issued after the shrink
+    pub after: u8,
+}
+
+pub fn scale_strategy() -> BoxedStrategy<ScaleCase> {
+    (100_200u32..135_000, any::<bool>(), proptest::bool::weighted(0.3), prop_oneof![2 => Just(0u32), 1 => 3_600u32..90_000], 1u32..5_000, 1u8..40)
+        .prop_map(|(n, metrics, asynchronous, ttl_s, shrink_to, after)| ScaleCase { n, metrics, asynchronous, ttl_s, shrink_to, after })
+        .boxed()
+}
+
+#[derive(Clone, Default)]
+struct CountCb(std::sync::Arc<parking_lot::Mutex<std::collections::HashMap<u64, u8>>>);
+impl stretto::CacheCallback for CountCb {
+    type Value = u64;
+    fn on_exit(&self, v: Option<u64>) {
+        if let Some(v) = v {
+            *self.0.lock().entry(v).or_insert(0) += 1;
+        }
+    }
+    fn on_evict(&self, item: stretto::Item<u64>) {
+        if let Some(v) = item.val {
+            *self.0.lock().entry(v).or_insert(0) += 1;
+        }
+    }
+    fn on_reject(&self, item: stretto::Item<u64>) {
+        if let Some(v) = item.val {
+            *self.0.lock().entry(v).or_insert(0) += 1;
+        }
+    }
+}
+
+pub fn run_scale(c: &ScaleCase) -> Result<CompFeats, String> {
+    match caught(|| run_scale_inner(c)) {
+        Ok(r) => r,
+        Err(p) => Err(format!("[scale_panic] {:?}: {}", c, p)),
+    }
+}
+
+fn run_scale_inner(c: &ScaleCase) -> Result<CompFeats, String> {
+    let mut feats = CompFeats { nontrivial: true, classes: vec![] };
+    let cb = CountCb::default();
+    let ttl = Duration::from_secs(c.ttl_s as u64);
+    let n = c.n as u64;
+    let total = n + c.after as u64;
+    macro_rules! body {
+        ($cache:expr, $aw:ident) => {{
+            let cache = $cache;
+            let mut accepted: Vec<u64> = Vec::with_capacity(total as usize);
+            for k in 0..n {
+                let r = if c.ttl_s == 0 { $aw!(cache.try_insert(k, k, 1)) } else { $aw!(cache.try_insert_with_ttl(k, k, 1, ttl)) };
+                match r {
+                    Ok(true) => accepted.push(k),
+                    Ok(false) => {}
+                    Err(e) => return Err(format!("HARNESS scale: insert failed: {}", e)),
+                }
+                if k % 8192 == 8191 {
+                    $aw!(cache.wait()).map_err(|e| format!("HARNESS scale: wait failed: {}", e))?;
+                }
+            }
+            $aw!(cache.wait()).map_err(|e| format!("HARNESS scale: wait failed: {}", e))?;
+            // far below capacity: everything accepted is resident, nothing has been handed back
+            if cache.len() != accepted.len() {
+                return Err(format!("[scale_map] {:?}: {} inserts accepted into a cache with room for all of them, len() = {}", c, accepted.len(), cache.len()));
+            }
+            if !cb.0.lock().is_empty() {
+                return Err(format!("[scale_conservation] {:?}: {} values were handed to callbacks although nothing had to leave", c, cb.0.lock().len()));
+            }
+            cache.update_max_cost(c.shrink_to as i64);
+            for k in n..total {
+                match $aw!(cache.try_insert(k, k, 1)) {
+                    Ok(true) => accepted.push(k),
+                    Ok(false) => {}
+                    Err(e) => return Err(format!("HARNESS scale: insert failed: {}", e)),
+                }
+                $aw!(cache.wait()).map_err(|e| format!("HARNESS scale: wait failed: {}", e))?;
+            }
+            // conservation after long use: resident or handed to exactly one callback
+            let log = cb.0.lock().clone();
+            let mut resident = 0usize;
+            let mut lost = 0usize;
+            let mut first_lost = None;
+            for k in accepted.iter() {
+                let here = $aw!(cache.get(k)).map(|r| *r.value() == *k).unwrap_or(false);
+                let cbs = log.get(k).copied().unwrap_or(0);
+                if here {
+                    resident += 1;
+                }
+                if here as u8 + cbs != 1 {
+                    lost += 1;
+                    first_lost.get_or_insert((*k, here, cbs));
+                }
+            }
+            if lost > 0 {
+                return Err(format!("[scale_conservation] {:?}: after {} admissions and a budget shrunk to {}, {} accepted values are not 'resident or handed to exactly one callback' (first: key {:?} resident/callbacks)", c, n, c.shrink_to, lost, first_lost));
+            }
+            if resident != cache.len() {
+                return Err(format!("[scale_map] {:?}: {} accepted keys are retrievable, len() = {}", c, resident, cache.len()));
+            }
+            if c.metrics {
+                let m = &cache.metrics;
+                let (ka, ke) = (m.get_keys_added().unwrap_or(0), m.get_keys_evicted().unwrap_or(0));
+                if ka.wrapping_sub(ke) != resident as u64 {
+                    return Err(format!("[scale_metrics] {:?}: keys_added {} - keys_evicted {} != {} resident entries", c, ka, ke, resident));
+                }
+            }
+            let _ = $aw!(cache.close());
+        }};
+    }
+    macro_rules! now {
+        ($e:expr) => {
+            $e
+        };
+    }
+    if c.asynchronous {
+        let cache = stretto::AsyncCacheBuilder::<u64, u64, stretto::TransparentKeyBuilder<u64>>::new_with_key_builder(c.n as usize * 2, 1 << 40, Default::default())
+            .set_metrics(c.metrics)
+            .set_ignore_internal_cost(true)
+            .set_callback(cb.clone())
+            .finalize(|f| {
+                typed_rt().spawn(f);
+            })
+            .map_err(|e| format!("HARNESS scale cache could not be built: {}", e))?;
+        let r: Result<(), String> = typed_rt().block_on(async {
+            macro_rules! aw {
+                ($e:expr) => {
+                    $e.await
+                };
+            }
+            body!(&cache, aw);
+            Ok(())
+        });
+        r?;
+        feats.classes.push("async");
+    } else {
+        let cache = stretto::CacheBuilder::<u64, u64, stretto::TransparentKeyBuilder<u64>>::new_with_key_builder(c.n as usize * 2, 1 << 40, Default::default())
+            .set_metrics(c.metrics)
+            .set_ignore_internal_cost(true)
+            .set_callback(cb.clone())
+            .finalize()
+            .map_err(|e| format!("HARNESS scale cache could not be built: {}", e))?;
+        body!(&cache, now);
+    }
+    if c.metrics {
+        feats.classes.push("metrics_on");
+    }
+    if c.ttl_s != 0 {
+        feats.classes.push("with_ttl");
+    }
+    Ok(feats)
+}
